@@ -179,11 +179,19 @@ class ModeSim(Sim):
     def _gen_leaf(self, rng, st):
         kn = st.knobs
         shape = rng.choice([(2, 3), (3,), (2, 2), (1, 3), (3, 3), ()])
+        cast = None
         if kn["ints"] and rng.random() < 0.2:
             vals = np.array([rng.randint(-3, 3) for _ in range(int(np.prod(shape)) if shape else 1)], dtype=np.int32).reshape(shape)
+            # every non-floating dtype: signed / unsigned integers, booleans (masks), complex numbers
+            cast = rng.choice([None, None, "i8", "u1", "bool", "c8", "c16", "i2"])
         else:
             vals = small_values(rng, shape, np.float32 if rng.random() < 0.2 else np.float64, -2, 2)
-        return {"k": "leaf", "id": st.next_id, "data": enc(vals), "rg": rng.random() < 0.6}
+            if rng.random() < 0.05:
+                cast = "f2"
+        ev = {"k": "leaf", "id": st.next_id, "data": enc(vals), "rg": rng.random() < 0.6}
+        if cast:
+            ev["cast"] = cast
+        return ev
 
     # ------------------------------------------------------------------ interpreter
     def execute(self, st, source):
@@ -465,6 +473,9 @@ class ModeSim(Sim):
     def _ev_leaf(self, st, ev):
         SG = st.SG
         data = dec(ev["data"])
+        if ev.get("cast"):
+            data = data.astype({"bool": np.bool_, "i8": np.int64, "i2": np.int16, "u1": np.uint8, "c8": np.complex64, "c16": np.complex128, "f2": np.float16}[ev["cast"]])
+            st.probes["leaf_dtype_" + ev["cast"]] += 1
         is_int = data.dtype.kind != "f"
         try:
             t = SG.Tensor(data, requires_grad=ev["rg"])
